@@ -881,6 +881,12 @@ def c14(ctx):
         dict(id=14903, start="1984/05/01", end="1986/12/30", weather={"kind": "file", "name": "champion_climate.txt"},
              soil={"type": "Loam"}, crop={"name": "Maize", "planting": "05/01", "overrides": {}},
              irr={"method": 0}, co2={"constant": True, "current": 0.0}, off_season=False, _ext_days=1500),
+        # a water-table record that runs on after the end date (interpolated towards an observation the extension
+        # brings into the window) and begins before the start
+        dict(id=14904, start="1982/05/01", end="1983/12/30", weather={"kind": "file", "name": "champion_climate.txt"},
+             soil={"type": "Loam"}, crop={"name": "Maize", "planting": "05/01", "overrides": {}}, irr={"method": 0}, off_season=True,
+             gw={"water_table": "Y", "method": "Variable", "dates": ["1981-11-01", "1982-08-01", "1984-06-01"], "values": [2.0, 1.5, 0.8]},
+             _ext_days=400),
     ] + scs
     for sc in scs:
         objs = S.build_objects(sc)
